@@ -6,6 +6,7 @@ import (
 	"context"
 	"encoding/json"
 	"fmt"
+	"io"
 	"os"
 	"os/exec"
 	"path/filepath"
@@ -206,6 +207,9 @@ func (d *Driver) runRequests(reqs []*Request, gomaxprocs int) (resps []*Response
 	for {
 		var resp Response
 		if err := dec.Decode(&resp); err != nil {
+			if err != io.EOF {
+				cmd.Process.Kill() // protocol garbage: do not leave the worker blocked on its pipe
+			}
 			break
 		}
 		resps = append(resps, &resp)
